@@ -418,9 +418,10 @@ class RecordingCache:
                 from PIL import Image
                 data = t.source.as_buffer(seekable=True).read()
                 img = Image.open(BytesIO(data))
-                fmt = img.format
+                fmt, mode = img.format, img.mode
                 img = img.convert('RGBA')
                 img.info['stored_format'] = fmt
+                img.info['stored_mode'] = mode
             else:
                 img = t.source.as_image().copy()
             rec.append((tuple(t.coord), img))
@@ -464,6 +465,12 @@ def run_manager(gc, picture, cfg, coords, cache=None, rendezvous=None, fault_at=
             opts = ImageOptions(transparent=False, format='image/png', colors=0)
         elif variant == 'png-transparent':
             opts = ImageOptions(transparent=True, format='image/png', colors=0)
+        elif variant in ('png-base', 'jpeg-base'):
+            # nothing about the encoding is fixed by the image options (colors None, no encoding options): what the
+            # encoder does is decided by the base configuration (globals.image.paletted / jpeg_quality) that is in
+            # force where the tile is encoded
+            src_opts = ImageOptions(transparent=False, format='image/png')
+            opts = ImageOptions(transparent=False, format='image/png' if variant == 'png-base' else 'image/jpeg')
         else:
             opts = ImageOptions(transparent=True, format='mixed', colors=0)
     if cfg.get('clip') and not cfg.get('cache_opts'):
@@ -485,7 +492,7 @@ def run_manager(gc, picture, cfg, coords, cache=None, rendezvous=None, fault_at=
     if variant:
         cache.encode = True
         cache.shared_opts = opts
-        up.as_buffer = True
+        up.as_buffer = not variant.endswith('-base')
     pre_cached = set(cache.stored)
     try:
         tm = TileManager(gc.grid, cache, [src], 'png', DummyLocker(), image_opts=opts,
@@ -829,6 +836,34 @@ def load_corpus():
             if fn.endswith('.json'):
                 out.append(json.load(open(os.path.join(CORPUS, fn))))
     return out
+
+
+# fixed probes (h): 32x32 tiles of an 'rgb' picture with one cell per pixel = 1024 colours per tile (more than a palette
+# holds); level 2 is 8x4 tiles, level 1 4x2
+BASE_CONFIG_GRID = {'tile_size': [32, 32], 'res': [40, 20, 10], 'bbox': [0, 0, 2560, 1280], 'origin': 'll'}
+
+
+def _bc(cache_opts, glob, tiles, level=2, meta_size=(2, 2), concurrent=2, minimize=False):
+    return {'level': level, 'base_config': {
+        'config': {'meta_size': list(meta_size) if meta_size else None, 'meta_buffer': 0 if meta_size else None, 'minimize': minimize,
+                   'bulk': False, 'concurrent': concurrent, 'as_buffer': False, 'source': 'mock', 'cache_opts': cache_opts},
+        'tiles': [list(t) for t in tiles], 'globals_image': glob}}
+
+
+BASE_CONFIG_PROBES = [
+    # two meta tiles in one request -> two concurrent creators
+    _bc('png-base', {'paletted': False}, [(1, 1, 2), (2, 1, 2)]),
+    # four meta tiles, three creators
+    _bc('png-base', {'paletted': False}, [(1, 1, 2), (2, 1, 2), (1, 2, 2), (2, 2, 2)], concurrent=3),
+    # single tiles (no meta tiling) created concurrently
+    _bc('png-base', {'paletted': False}, [(0, 0, 2), (1, 0, 2), (7, 3, 2)], meta_size=None),
+    # one meta tile: created in the request thread
+    _bc('png-base', {'paletted': False}, [(2, 1, 2), (3, 1, 2)]),
+    # the default (paletted: true) and a JPEG cache with a configured quality
+    _bc('png-base', {'paletted': True}, [(1, 1, 2), (2, 1, 2)]),
+    _bc('jpeg-base', {'jpeg_quality': 35}, [(1, 1, 2), (2, 1, 2)]),
+    _bc('jpeg-base', {'jpeg_quality': 35}, [(0, 0, 1), (1, 0, 1), (3, 1, 1)], level=1, meta_size=None, concurrent=4),
+]
 
 
 # ----------------------------------------------------------------------------- the run
@@ -1204,6 +1239,85 @@ def run(ctx):
                                  'no buffer cut off' % (n, coord, fa, fb, where, where and a[where[0][1]][where[0][0]], where and b[where[0][1]][where[0][0]]),
                                  dict(rep, request=n, tile=coord))
 
+    def run_base_config(gc, level, spec):
+        """(h) a base configuration (globals) that differs from the defaults in what decides the encoding of a stored
+        tile (image.paletted: false -> true colour PNG instead of 255 colours; image.jpeg_quality), in force in the
+        request thread as in MapProxyApp (local_base_config); the image options of cache and source leave the encoding
+        open (colors None).  One request whose tiles need several creators (meta tiles, or single tiles) handled by
+        concurrent_tile_creators > 1: every stored tile, as a real backend writes it (tile.source.as_buffer()), is the
+        same image as the same tile fetched alone under the same base configuration (format, PNG mode, every pixel);
+        with paletted: false the PNG is lossless, so it also equals the upstream picture pixel by pixel.
+        Deterministic: the specs are fixed (BASE_CONFIG_PROBES / corpus)."""
+        from copy import deepcopy
+        from mapproxy.config import local_base_config
+        from mapproxy.config.config import load_default_config, finish_base_config
+        cfg = spec['config']
+        coords = [tuple(c) for c in spec['tiles']]
+        glob = spec['globals_image']
+        picture = Picture(gc, int(gc.res[level] * gc.S), 'rgb')
+        rep = {'grid': gc.spec, 'config': cfg, 'level': level, 'tiles': [list(c) for c in coords], 'picture': 'rgb',
+               'globals': {'image': glob}, 'compared': 'decoded bytes of tile.source.as_buffer() as a cache backend stores them'}
+        ctx.count('base_config:' + cfg['cache_opts'] + '/' + ','.join('%s=%s' % kv for kv in sorted(glob.items())))
+        ctx.case(('base_config', json.dumps(rep, sort_keys=True)), True, rep if len(ctx.samples) < 6 else None)
+        tmp = ctx.tmpdir('c04-base-config')
+        try:
+            conf = deepcopy(load_default_config())
+            conf.conf_base_dir = tmp
+            finish_base_config(conf)
+            for k, v in glob.items():
+                conf.image[k] = v
+        except Exception as e:  # noqa
+            ctx.fail('tile-manager-raises', 'base configuration cannot be built: %s: %s' % (type(e).__name__, e), rep)
+            return
+        with local_base_config(conf):
+            steps, served, has_meta, err = run_manager(gc, picture, cfg, coords, cache=RecordingCache([], threading.Lock()))
+            if err is not None:
+                ctx.fail('tile-manager-raises', 'TileManager raised %s' % err, rep)
+                return
+            n_creators = len([1 for reqs, rec in steps if rec])
+            ctx.count('base_config:creators_in_request=%d' % n_creators)
+            stored = {}
+            for reqs, rec in steps:
+                for coord, img in rec:
+                    if coord in stored:
+                        ctx.fail('tile-stored-twice', 'tile %r is stored twice by one request' % (coord,), rep)
+                    stored[coord] = img
+            for coord in coords:
+                if coord not in stored:
+                    ctx.fail('requested-tile-not-stored', 'requested tile %r is not stored' % (coord,), rep)
+            for coord in sorted(stored):
+                img = stored[coord]
+                scfg = {'meta_size': None, 'meta_buffer': None, 'minimize': False, 'bulk': False, 'concurrent': 1,
+                        'cache_opts': cfg['cache_opts']}
+                st, sv, hm, er = run_manager(gc, picture, scfg, [coord])
+                ref = st[0][1][0][1] if (er is None and st and st[0][1]) else None
+                if ref is None:
+                    ctx.fail('single-tile-fetch-fails', 'tile %r fetched alone is not produced' % (coord,), dict(rep, tile=coord))
+                    continue
+                ctx.count('base_config:compared_with_tile_fetched_alone')
+                fa, fb = (img.info.get('stored_format'), img.info.get('stored_mode')), (ref.info.get('stored_format'), ref.info.get('stored_mode'))
+                if fa != fb or img.size != ref.size or img.tobytes() != ref.tobytes():
+                    a, b = picture.decode(img), picture.decode(ref)
+                    diff = [(j, k) for k in range(min(len(a), len(b))) for j in range(min(len(a[0]), len(b[0]))) if a[k][j] != b[k][j]]
+                    w = diff[:1]
+                    ctx.fail('tile-differs-from-tile-fetched-alone',
+                             'base configuration image: %r, %d creators (concurrent_tile_creators %d): tile %r as stored (%s/%s) differs from the '
+                             'same tile fetched alone under the same base configuration (%s/%s) at %d pixels, first at %r: %r / %r; no buffer cut off'
+                             % (glob, n_creators, cfg['concurrent'], coord, fa[0], fa[1], fb[0], fb[1], len(diff), w,
+                                w and a[w[0][1]][w[0][0]], w and b[w[0][1]][w[0][0]]),
+                             dict(rep, tile=coord))
+                    continue
+                if cfg['cache_opts'] == 'png-base' and glob.get('paletted') is False:
+                    # lossless: the stored tile is the upstream picture
+                    want = picture.decode(picture.render(gc.grid.tile_bbox(coord), gc.grid.tile_size))
+                    a = picture.decode(img)
+                    diff = [(j, k) for k in range(len(a)) for j in range(len(a[0])) if a[k][j] != want[k][j]]
+                    if diff:
+                        j, k = diff[0]
+                        ctx.fail('stored-tile-differs-from-picture',
+                                 'base configuration image: %r: tile %r as stored (%s/%s) differs from the upstream picture at %d pixels, first at '
+                                 '%r: %r / %r' % (glob, coord, fa[0], fa[1], len(diff), (j, k), a[k][j], want[k][j]), dict(rep, tile=coord))
+
     def run_faults(gc, level, kind, spec=None):
         """an upstream fault during one request (a response that must not be cached / a response that ends in the
         middle of the image data), then the same request again without fault, on one cache."""
@@ -1328,6 +1442,8 @@ def run(ctx):
         gc = new_grid(item['grid'])
         if 'encoded' in item:
             run_encoded(gc, item['level'], spec=item['encoded'])
+        elif 'base_config' in item:
+            run_base_config(gc, item['level'], item['base_config'])
         elif 'clip' in item:
             run_clip(gc, item['level'], spec=item['clip'])
         elif 'faults' in item:
@@ -1348,6 +1464,11 @@ def run(ctx):
         else:
             e2e(gc, item['config'], [tuple(c) if c is not None else None for c in item['tiles']], item['level'], 'corpus',
                 kind=item.get('picture', 'cells'))
+
+    # ---- fixed probes: base configuration x concurrent creators (independent of the seed)
+    bc_grid = new_grid(BASE_CONFIG_GRID)
+    for item in BASE_CONFIG_PROBES:
+        run_base_config(bc_grid, item['level'], item['base_config'])
 
     n_grids = ctx.n(14, 70)
     for _ in range(n_grids):
